@@ -214,7 +214,7 @@ fn worker_body(prop: &'static dyn Prop, args: WorkerArgs) {
     cases: args.cases.min(u32::MAX as u64) as u32,
     failure_persistence: None,
     max_shrink_iters: std::env::var("VERIF_SHRINK").ok().and_then(|s| s.parse().ok()).unwrap_or(params.shrink_iters),
-    max_shrink_time: 0,
+    max_shrink_time: std::env::var("VERIF_SHRINK_MS").ok().and_then(|s| s.parse().ok()).unwrap_or(90_000),
     verbose: 0,
     max_global_rejects: u32::MAX,
     max_local_rejects: u32::MAX,
